@@ -270,7 +270,7 @@ def typestate(ctx, R2, repo, fo):
                     new = ms_name
                     if new in PENDING or not permitted(new):
                         continue
-                    env = {f"{NEW} is not None": True, NEW: True, "self.orig_clord_id": True,
+                    env = {f"{NEW} is not None": True, f"{NEW} is None": False, NEW: True, "self.orig_clord_id": True,
                            f"{mp}.msg_type != FMsg.EXECUTIONREPORT": False, f"{mp}.msg_type != FMsg.ORDERCANCELREJECT": False,
                            f"{mp}.msg_type == FMsg.{kind}": True}
 
